@@ -351,6 +351,35 @@ type Sess struct {
 	handed  []*handedRules
 }
 
+var listingGetter int
+
+// liveListing returns what one of the listing getters hands out (not a copy made by the harness)
+func (s *Sess) liveListing(p bool, ptype string) [][]string {
+	listingGetter++
+	var live [][]string
+	switch listingGetter % 3 {
+	case 0:
+		if p {
+			live, _ = s.E.GetNamedPolicy(ptype)
+		} else {
+			live, _ = s.E.GetNamedGroupingPolicy(ptype)
+		}
+	case 1:
+		if p {
+			live, _ = s.E.GetFilteredNamedPolicy(ptype, 0)
+		} else {
+			live, _ = s.E.GetFilteredNamedGroupingPolicy(ptype, 0)
+		}
+	default:
+		if p {
+			live, _ = s.E.GetFilteredNamedPolicy(ptype, 0, "")
+		} else {
+			live, _ = s.E.GetFilteredNamedGroupingPolicy(ptype, 0, "")
+		}
+	}
+	return live
+}
+
 func mres(ok bool, err error) string {
 	if err != nil {
 		return "err:" + proto.Bool(ok)
@@ -563,13 +592,12 @@ func (s *Sess) execInner(o EOp) (obs string) {
 		return mres(e.RemoveNamedGroupingPolicy(o.PType, s.hand1(o, o.Rule)))
 	case "rms":
 		if o.Listed {
-			// the listing handed straight back (o.Rules holds what was listed)
+			// the listing handed straight back (o.Rules holds what was listed); the getter rotates: the plain listing,
+			// the filtered listing with no values, the filtered listing with one empty value
 			if p {
-				live, _ := e.GetNamedPolicy(o.PType)
-				return mres(e.RemoveNamedPolicies(o.PType, live))
+				return mres(e.RemoveNamedPolicies(o.PType, s.liveListing(true, o.PType)))
 			}
-			live, _ := e.GetNamedGroupingPolicy(o.PType)
-			return mres(e.RemoveNamedGroupingPolicies(o.PType, live))
+			return mres(e.RemoveNamedGroupingPolicies(o.PType, s.liveListing(false, o.PType)))
 		}
 		if p {
 			return mres(e.RemoveNamedPolicies(o.PType, s.hand(o, o.Rules)))
@@ -581,6 +609,13 @@ func (s *Sess) execInner(o EOp) (obs string) {
 		}
 		return mres(e.UpdateNamedGroupingPolicy(o.PType, s.hand1(o, o.Rule), s.hand1(o, o.New)))
 	case "upds":
+		if o.Listed {
+			// the old rules are the listing itself, handed straight back
+			if p {
+				return mres(e.UpdateNamedPolicies(o.PType, s.liveListing(true, o.PType), s.hand(o, o.News)))
+			}
+			return mres(e.UpdateNamedGroupingPolicies(o.PType, s.liveListing(false, o.PType), s.hand(o, o.News)))
+		}
 		if p {
 			return mres(e.UpdateNamedPolicies(o.PType, s.hand(o, o.Rules), s.hand(o, o.News)))
 		}
